@@ -278,3 +278,61 @@ func VerifC14_DecodeTruncatedGMessage() {
 	var d GMessage
 	sym.Assert(d.UnmarshalCBOR(bytes.NewReader(data[:cut])) != nil, "a strict prefix of a valid encoding is rejected")
 }
+
+func verifDeepCopyChain(c *ECChain) *ECChain {
+	out := &ECChain{}
+	for _, ts := range c.TipSets {
+		t := *ts
+		t.Key = append(TipSetKey(nil), ts.Key...)
+		out.TipSets = append(out.TipSets, &t)
+	}
+	return out
+}
+
+// VerifC14_DerivedChainsKeepTheirKeys: chains derived from a chain (Prefix,
+// AllPrefixes, BaseChain, Extend, Append) are values of their own: building a
+// fork on top of a derived chain never changes the content of the chain it
+// was derived from nor of its siblings, so every (cached) key still is the key
+// of the content it is read from.
+func VerifC14_DerivedChainsKeepTheirKeys() {
+	n := 2 + sym.Choice("len-minus-2", 3)
+	var tags []byte
+	for i := 1; i < n; i++ {
+		tags = append(tags, byte(10+i))
+	}
+	c := VerifChain(10, 10, tags...)
+	snapshot := verifDeepCopyChain(c)
+	if sym.Bool("parent-key-cached") {
+		_ = c.Key()
+	}
+	all := c.AllPrefixes()
+	var derived []*ECChain
+	derived = append(derived, all...)
+	for i := 0; i < n; i++ {
+		derived = append(derived, c.Prefix(i))
+	}
+	derived = append(derived, c.BaseChain())
+	var snaps []*ECChain
+	for _, d := range derived {
+		snaps = append(snaps, verifDeepCopyChain(d))
+	}
+	// fork off one of the derived chains
+	k := sym.Choice("fork-from", len(derived))
+	fork := VerifTipSet(99, 99)
+	var forked *ECChain
+	if sym.Bool("extend") {
+		forked = derived[k].Extend(fork.Key)
+	} else {
+		forked = derived[k].Append(fork)
+	}
+	sym.Cover("forked")
+	sym.Assert(forked.Len() == derived[k].Len()+1 && forked.Key() == verifDeepCopyChain(forked).Key(), "fork has its own key")
+	sym.Assert(c.Eq(snapshot) && c.Key() == snapshot.Key(), "forking a derived chain leaves the parent and its key unchanged")
+	for i, d := range derived {
+		sym.Assert(d.Eq(snaps[i]), "forking a derived chain leaves its siblings unchanged")
+		sym.Assert(d.Key() == verifDeepCopyChain(d).Key(), "cached key is the key of the content")
+		p := Payload{Instance: 1, Phase: PREPARE_PHASE, Value: d}
+		q := Payload{Instance: 1, Phase: PREPARE_PHASE, Value: verifDeepCopyChain(d)}
+		sym.Assert(bytes.Equal(p.MarshalForSigning("nn"), q.MarshalForSigning("nn")), "signed bytes are those of the content")
+	}
+}
